@@ -312,14 +312,103 @@ theorem max_agree (mvs : List Value) (next : Nat) : FnAgree fMax mvs next := by
       Spec.Eval.nLength, Spec.Eval.nKeys, Spec.Eval.nAugmentMap, Spec.Eval.nRound, Spec.Eval.nFloor, Spec.Eval.nCeiling,
       fIsNonnull, fLength, fKeys, fAugmentMap, fRound, fFloor, fCeiling]
 
+/-! ### keys / augmentMap -/
+
+theorem bytesLe_eq : ∀ (a b : Bytes), Spec.Eval.bytesLe a b = Value.bytesLe a b
+  | [], _ => by simp [Spec.Eval.bytesLe, Value.bytesLe]
+  | _ :: _, [] => by simp [Spec.Eval.bytesLe, Value.bytesLe]
+  | a :: as, b :: bs => by simp only [Spec.Eval.bytesLe, Value.bytesLe, bytesLe_eq as bs]
+
+theorem insertByKey_fst (k : Bytes) : ∀ (l : List (Bytes × Unit)),
+    (Spec.Eval.insertByKey (k, ()) l).map (·.1) = Value.insertSorted k (l.map (·.1))
+  | [] => rfl
+  | y :: ys => by
+    simp only [Spec.Eval.insertByKey, Value.insertSorted, List.map_cons, bytesLe_eq]
+    split
+    · rfl
+    · simp only [List.map_cons, insertByKey_fst k ys]
+
+theorem sortByKey_fst : ∀ (l : List Bytes), (Spec.Eval.sortByKey (l.map fun k => (k, ()))).map (·.1) = Value.sortStrings l
+  | [] => rfl
+  | x :: xs => by
+    simp only [List.map_cons, Spec.Eval.sortByKey, Value.sortStrings]
+    rw [insertByKey_fst, sortByKey_fst xs]
+
+theorem absK_keys : ∀ (kvs : List (Bytes × Value)), (absK kvs).map (·.1) = kvs.map (·.1)
+  | [] => rfl
+  | (k, v) :: r => by simp [absK, absK_keys r]
+
+theorem absL_strs : ∀ (l : List Bytes), absL (l.map Value.str) = l.map Val.str
+  | [] => rfl
+  | x :: r => by simp [absL, absV, absL_strs r]
+
+/-- the keys of a map, sorted, on both sides -/
+theorem keys_val (kvs : List (Bytes × Value)) :
+    absL ((Value.sortStrings (kvs.map fun kv => kv.1)).map Value.str) =
+      (Spec.Eval.sortByKey ((absK kvs).map fun kv => (kv.1, ()))).map fun kv => Val.str kv.1 := by
+  rw [absL_strs, ← sortByKey_fst]
+  have : ((absK kvs).map fun kv => (kv.1, ())) = (kvs.map fun kv => kv.1).map fun k => (k, ()) := by
+    rw [← absK_keys kvs]; simp
+  rw [this]
+  simp
+
+theorem keys_agree (mvs : List Value) (next : Nat) : FnAgree fKeys mvs next := by
+  rcases mvs with _ | ⟨a, _ | ⟨b, r⟩⟩
+  · simp [FnAgree, absL, Spec.Eval.applyFn, applyFunc, arityOk, funcArities, fKeys, Spec.Eval.nKeys, Spec.Eval.nIsNonnull, Spec.Eval.nLength,
+      fIsNonnull, fLength]
+  · cases a <;> simp [FnAgree, absL, absV, Spec.Eval.applyFn, applyFunc, arityOk, funcArities, fKeys, Spec.Eval.nKeys, Spec.Eval.nIsNonnull, Spec.Eval.nLength,
+      fIsNonnull, fLength]
+    rename_i id kvs
+    by_cases he : kvs.isEmpty = true
+    · have : kvs = [] := by simpa using he
+      subst this
+      exact ⟨.list 0 [], ⟨next, by simp⟩, by simp [absV, absL, absK, Spec.Eval.sortByKey]⟩
+    · have he' : ¬ kvs = [] := by simpa using he
+      refine ⟨.list next ((Value.sortStrings (kvs.map fun kv => kv.1)).map Value.str), ⟨next + 1, by simp only [he', if_false]⟩, ?_⟩
+      rw [absV, keys_val]
+  · simp [FnAgree, absL, Spec.Eval.applyFn, applyFunc, arityOk, funcArities, fKeys, Spec.Eval.nKeys, Spec.Eval.nIsNonnull, Spec.Eval.nLength,
+      fIsNonnull, fLength]
+
+theorem absK_insert : ∀ (kvs : List (Bytes × Value)) (k : Bytes) (v : Value),
+    absK (Value.insert kvs k v) = Spec.Eval.insertB (absK kvs) k (absV v)
+  | [], k, v => rfl
+  | (k', v') :: r, k, v => by
+    simp only [Value.insert, absK, Spec.Eval.insertB]
+    split
+    · rfl
+    · simp only [absK, absK_insert r k v]
+
+theorem absK_foldl : ∀ (m : List (Bytes × Value)) (acc : List (Bytes × Value)),
+    absK (m.foldl (fun a kv => Value.insert a kv.1 kv.2) acc) =
+      (absK m).foldl (fun a kv => Spec.Eval.insertB a kv.1 kv.2) (absK acc)
+  | [], acc => rfl
+  | (k, v) :: r, acc => by
+    simp only [List.foldl_cons, absK]
+    rw [absK_foldl r, absK_insert]
+
+theorem augment_agree (mvs : List Value) (next : Nat) : FnAgree fAugmentMap mvs next := by
+  rcases mvs with _ | ⟨a, _ | ⟨b, _ | ⟨c, r⟩⟩⟩
+  · simp [FnAgree, absL, Spec.Eval.applyFn, applyFunc, arityOk, funcArities, fAugmentMap, Spec.Eval.nAugmentMap, Spec.Eval.nKeys, Spec.Eval.nIsNonnull,
+      Spec.Eval.nLength, fIsNonnull, fLength, fKeys]
+  · cases a <;> simp [FnAgree, absL, absV, Spec.Eval.applyFn, applyFunc, arityOk, funcArities, fAugmentMap, Spec.Eval.nAugmentMap, Spec.Eval.nKeys, Spec.Eval.nIsNonnull,
+      Spec.Eval.nLength, fIsNonnull, fLength, fKeys]
+  · cases a <;> cases b <;> simp [FnAgree, absL, absV, Spec.Eval.applyFn, applyFunc, arityOk, funcArities, fAugmentMap, Spec.Eval.nAugmentMap, Spec.Eval.nKeys, Spec.Eval.nIsNonnull,
+      Spec.Eval.nLength, fIsNonnull, fLength, fKeys]
+    rename_i i1 m1 i2 m2
+    simp only [augment, Spec.Eval.augmentSpec]
+    rw [absK_foldl, absK_foldl]
+    rfl
+  · simp [FnAgree, absL, Spec.Eval.applyFn, applyFunc, arityOk, funcArities, fAugmentMap, Spec.Eval.nAugmentMap, Spec.Eval.nKeys, Spec.Eval.nIsNonnull,
+      Spec.Eval.nLength, fIsNonnull, fLength, fKeys]
+
 /-- the builtins covered by the refinement theorem -/
 def fnOk (name : Bytes) : Bool :=
   name == fIsNonnull || name == fLength || name == fStrContains || name == fHasData || name == fRange ||
-  name == fMin || name == fMax
+  name == fMin || name == fMax || name == fKeys || name == fAugmentMap
 
 theorem fn_agree (name : Bytes) (h : fnOk name = true) (mvs : List Value) (next : Nat) : FnAgree name mvs next := by
   simp only [fnOk, Bool.or_eq_true, beq_iff_eq] at h
-  rcases h with (((((rfl | rfl) | rfl) | rfl) | rfl) | rfl) | rfl
+  rcases h with (((((((rfl | rfl) | rfl) | rfl) | rfl) | rfl) | rfl) | rfl) | rfl
   · exact nonnull_agree mvs next
   · exact length_agree mvs next
   · exact strContains_agree mvs next
@@ -327,10 +416,12 @@ theorem fn_agree (name : Bytes) (h : fnOk name = true) (mvs : List Value) (next 
   · exact range_agree mvs next
   · exact min_agree mvs next
   · exact max_agree mvs next
+  · exact keys_agree mvs next
+  · exact augment_agree mvs next
 
 theorem fnOk_notLoop (name : Bytes) (h : fnOk name = true) : isLoopFunc name = false ∧ Spec.Eval.isLoopFn name = false := by
   simp only [fnOk, Bool.or_eq_true, beq_iff_eq] at h
-  rcases h with (((((rfl | rfl) | rfl) | rfl) | rfl) | rfl) | rfl <;> exact ⟨by decide, by decide⟩
+  rcases h with (((((((rfl | rfl) | rfl) | rfl) | rfl) | rfl) | rfl) | rfl) | rfl <;> exact ⟨by decide, by decide⟩
 
 theorem evalArgs_len {m : EEnv} : ∀ (args : ExprList) (n : Nat) (mvs : List Value) (n' : Nat),
     evalArgs m args n = some (mvs, n') → mvs.length = args.length
